@@ -63,7 +63,7 @@ pub fn generate(seed: u64, run: u64, _tier: Tier, st: &mut Stats) -> (StreamCase
         filter,
         buf_cap,
         msg_max,
-        gen: Some(GenInfo { policy, sched_seed: rs.next_u64() }),
+        gen: Some(GenInfo { policy, sched_seed: rs.next_u64(), co_policies: vec![] }),
         notes: b.medium.notes.clone(),
         seed,
         run,
